@@ -1,5 +1,5 @@
 SPECIFICATION TraceSpec
-CONSTANTS MaxOps = 1000000
+CONSTANTS MaxOps = 1000000 RawOps = 1000000
   Shapes = {}
   Datas = {}
   Ks = {}
@@ -9,6 +9,6 @@ CONSTANTS MaxOps = 1000000
   Early = {}
   Ahead = {}
 INVARIANTS RawConservation RawRefines FileRefines ReadRefines FlushComplete
-PROPERTIES RawTiling RawDiscard ReadIsFile EndlExact
+PROPERTIES RawTiling RawPeek RawDiscard ReadIsFile EndlExact
 POSTCONDITION TraceAccepted
 CHECK_DEADLOCK FALSE
